@@ -23,7 +23,7 @@ META = {
              '.properties of exactly one member, the attribute concept; context order inside a '
              'label; extent = union of object labels over the shadow downset, intent = union of '
              'property labels over the upset; concept.atoms = lattice atoms <= concept in atom '
-             'order. Call monitors: str(concept), str(lattice) follow the documented shape. '
+             'order. Call monitors: str(concept)/str(lattice) are defined and show the labels (layout not judged). '
              'distinct_nontrivial = distinct tables with a concept carrying >= 2 labels of one '
              'kind or a label on an extreme concept.'),
     'evaluation_counters': ['judged_labels', 'judged_str_concept', 'judged_str_lattice'],
@@ -150,12 +150,20 @@ def _expected_str(c):
 
 
 class StrConcept(Monitor):
+    """str(concept) must be defined and show the concept's extent, intent and own labels (the
+    exact layout is not part of the property; the documented one is only counted)."""
     def after(self, token, args, kwargs, result):
         c = args[0]
         COL.count('judged_str_concept')
-        want = _expected_str(c)
-        if result != want:
-            COL.violation('str(concept)', 'str-concept:shape-differs', want, result)
+        if not isinstance(result, str):
+            COL.violation('str(concept)', 'str-concept:not-a-string', 'str', repr(result))
+            return
+        missing = [x for x in list(c.extent) + list(c.intent) + list(c.objects) + list(c.properties)
+                   if x not in result]
+        if missing:
+            COL.violation('str(concept)', 'str-concept:label-not-shown', missing[:5], result)
+        if result == _expected_str(c):
+            COL.count('str_concept_has_documented_layout')
 
     def raised(self, token, args, kwargs, exc):
         COL.count('judged_str_concept')
@@ -166,19 +174,20 @@ class StrLattice(Monitor):
     def after(self, token, args, kwargs, result):
         lat = args[0]
         COL.count('judged_str_lattice')
-        lines = result.split('\n') if isinstance(result, str) else None
-        members = list(lat)
-        if lines is None or len(lines) < 1:
+        if not isinstance(result, str):
             COL.violation('str(lattice)', 'str-lattice:not-a-string', 'text', repr(result))
             return
-        # labels may contain line breaks only in hostile alphabets, which this stream does not use
-        want = ['    ' + _expected_str(c) for c in members]
-        if lines[1:] != want:
-            COL.violation('str(lattice)', 'str-lattice:member-lines-differ', want[:6], lines[1:7])
-        head = core.mask_addr(lines[0])
-        if f'{len(members)} concepts' not in head or f'{len(lat.atoms)} atoms' not in head:
-            COL.violation('str(lattice)', 'str-lattice:header-counts-differ',
-                          f'{len(lat.atoms)} atoms {len(members)} concepts', head)
+        members = list(lat)
+        # every member's own string appears in the text, in iteration order
+        pos = 0
+        for c in members:
+            k = result.find(str(c), pos)
+            if k < 0:
+                COL.violation('str(lattice)', 'str-lattice:member-not-listed-in-order', str(c), result[:300])
+                return
+            pos = k + 1
+        if result.split('\n')[1:] == ['    ' + _expected_str(c) for c in members]:
+            COL.count('str_lattice_has_documented_layout')
 
     def raised(self, token, args, kwargs, exc):
         COL.count('judged_str_lattice')
